@@ -264,6 +264,68 @@ pub fn redeclare(image: &Value) -> Vec<Fault> {
     out
 }
 
+/// Byzantine re-declaration of the *trace length*: every number that configuration and
+/// public-input validation tie to it is re-declared consistently (step count, commitment heights,
+/// FRI input size, extra FRI layers of step 4 with their descriptions, commitments and witnesses
+/// repeated), all supplied data stays. Validation passes; the first check that can fail is the
+/// out-of-domain one, and everything before it works with a hostile 2^L.
+pub fn byzantine_trace_lengths(image: &Value) -> Vec<(String, Vec<Fault>)> {
+    let cfg = &image["config"];
+    let f = |v: &Value| image::felt_of(v).unwrap_or(Felt::ZERO);
+    let to_u = |x: Felt| -> Option<u64> { x.to_biguint().try_into().ok() };
+    let (Some(log_trace), Some(log_cosets), Some(last)) = (to_u(f(&cfg["log_trace_domain_size"])), to_u(f(&cfg["log_n_cosets"])), to_u(f(&cfg["fri"]["log_last_layer_degree_bound"]))) else { return vec![] };
+    let Some(log_n_steps) = to_u(f(&image["public_input"]["log_n_steps"])) else { return vec![] };
+    let steps: Vec<u64> = cfg["fri"]["fri_step_sizes"].as_array().map(|a| a.iter().filter_map(|v| to_u(f(v))).collect()).unwrap_or_default();
+    let n_inner = cfg["fri"]["inner_layers"].as_array().map(|a| a.len()).unwrap_or(0);
+    if n_inner == 0 || steps.len() != n_inner + 1 || log_trace > 60 || log_trace < log_n_steps {
+        return vec![];
+    }
+    let nvf = f(&cfg["n_verifier_friendly_commitment_layers"]);
+    let hexu = |x: u64| image::felt_hex(&Felt::from(x));
+    let mut out = Vec::new();
+    for l_new in [log_trace + 1, log_trace + 4, 30, 40, 48, 60] {
+        if l_new <= log_trace || l_new + log_cosets > 63 {
+            continue;
+        }
+        let mut new_steps = steps.clone();
+        let mut missing = l_new - log_trace;
+        while missing > 0 {
+            let s = missing.min(4);
+            new_steps.push(s);
+            missing -= s;
+        }
+        if new_steps.len() > 15 {
+            continue;
+        }
+        let log_eval = l_new + log_cosets;
+        let mut fl = vec![
+            Fault::Set { path: "config.log_trace_domain_size".into(), value: hexu(l_new) },
+            Fault::Set { path: "public_input.log_n_steps".into(), value: hexu(log_n_steps + (l_new - log_trace)) },
+            Fault::Set { path: "config.fri.log_input_size".into(), value: hexu(log_eval) },
+            Fault::Set { path: "config.fri.n_layers".into(), value: hexu(new_steps.len() as u64) },
+        ];
+        for t in ["config.traces.original", "config.traces.interaction", "config.composition"] {
+            fl.push(Fault::Set { path: format!("{t}.vector.height"), value: hexu(log_eval) });
+        }
+        let mut h = log_eval;
+        for (i, s) in new_steps.iter().enumerate().skip(1) {
+            h -= s;
+            if i > n_inner {
+                fl.push(Fault::Append { path: "config.fri.fri_step_sizes".into(), value: Some(hexu(*s)) });
+                fl.push(Fault::Append { path: "config.fri.inner_layers".into(), value: None });
+                fl.push(Fault::Append { path: "unsent_commitment.fri.inner_layers".into(), value: None });
+                fl.push(Fault::Append { path: "witness.fri_witness.layers".into(), value: None });
+            }
+            fl.push(Fault::Set { path: format!("config.fri.inner_layers[{}].vector.height", i - 1), value: hexu(h) });
+            fl.push(Fault::Set { path: format!("config.fri.inner_layers[{}].n_columns", i - 1), value: image::felt_hex(&models::pow2(*s)) });
+            fl.push(Fault::Set { path: format!("config.fri.inner_layers[{}].vector.n_verifier_friendly_commitment_layers", i - 1), value: image::felt_hex(&nvf) });
+        }
+        let _ = last;
+        out.push((format!("trace-length:{l_new}"), fl));
+    }
+    out
+}
+
 /// Byzantine multi-field re-declarations of the FRI description that keep every cross-check the
 /// configuration validation is *supposed* to make consistent except the one bound under attack:
 /// one inner layer with a single big step S (sum of steps + last-layer bound still equals the
@@ -670,6 +732,7 @@ pub fn c18(ctx: &mut Ctx) {
         }
         work.extend(nf.into_iter().map(|(n, f)| (format!("numeric:{n}"), f)));
         work.extend(byzantine_fri_redeclarations(&base.image).into_iter().map(|(n, f)| (format!("byzantine:{n}"), f)));
+        work.extend(byzantine_trace_lengths(&base.image).into_iter().map(|(n, f)| (format!("byzantine:{n}"), f)));
         // combinations of 2..4 single faults
         let singles: Vec<Vec<Fault>> = work.iter().map(|(_, f)| f.clone()).collect();
         let n_combo = if exhaustive { 400 } else { 40 };
@@ -828,6 +891,7 @@ pub fn c17(ctx: &mut Ctx) {
             work.extend(rest);
         }
         work.extend(byzantine_fri_redeclarations(&base.image));
+        work.extend(byzantine_trace_lengths(&base.image));
         // unused surplus entries with hostile values (not validated, not in the transcript)
         for (nm, v) in extreme_felts() {
             if ["5", "17", "30", "63", "2^16", "2^22", "2^26", "2^40", "2^64", "p-1"].contains(&nm) {
